@@ -93,6 +93,7 @@ Proof.
   - (* leaf *) unfold res_inv. destruct (eval G extras uprop w 1 a emit e p sg) eqn:E; auto. eapply leaf_boundary; eauto.
   - (* call *) assert (R := IHbs (VG _ _ H0) I). destruct res; cbn in *; auto.
   - (* seq *) assert (R1 := IHbs1 V1 I). assert (R2 := IHbs2 Logic.I R1). assert (R3 := IHbs3 V2 R2). destruct res; cbn in *; auto.
+  - (* cho_l *) apply (IHbs V1 I).
   - (* opt *) assert (R := IHbs V I). destruct res; cbn in *; auto.
   - (* rep *) apply IHbs2; auto. apply (IHbs1 V I).
   - (* rep1x *) apply IHbs2; auto. apply (IHbs1 V I).
@@ -104,8 +105,8 @@ Proof.
     destruct I as [Bp _]. destruct (Nat.le_gt_cases p q) as [L|L]; [now apply valid_slice|].
     replace (q - p) with 0 by lia. apply valid_nil.
   - (* tag *) assert (R := IHbs V I). destruct res; cbn in *; auto.
-  - (* many_step *) apply IHbs2; auto. apply (IHbs1 Logic.I I).
-  - (* cw_step *) apply IHbs3; auto. apply (IHbs2 Logic.I). apply (IHbs1 Logic.I I).
+  - (* many_step *) apply IHbs2; auto. apply (IHbs1 (Forall_nil _) I).
+  - (* cw_step *) apply IHbs3; auto. apply (IHbs2 Logic.I). apply (IHbs1 (Forall_nil _) I).
   - (* rep_step *) apply IHbs3; auto. apply (IHbs2 V). apply (IHbs1 Logic.I I).
   - (* skip_both *) apply IHbs2; auto. apply (IHbs1 Logic.I I).
 Qed.
